@@ -117,7 +117,15 @@ class Gating(Observer):
         if info is None:
             return
         inst = sim.instances.get(rec['dst'])
-        if inst is None or not inst.alive or inst.incarnation != info['inc'] or rec.get('outcome') not in ('ok', 'fault'):
+        if inst is None or not inst.alive or inst.incarnation != info['inc']:
+            return
+        if rec.get('outcome') == 'http500':
+            # neither a result nor a fault: an exception other than RPCError left the method ("fail cleanly")
+            self.violate('not-a-fault', {'inst': inst.nick, 'method': info['method'], 'params': info['params'],
+                                         'state': info['state'], 'has_master': info['has_master']},
+                         'internal-error-instead-of-fault:%s' % info['method'])
+            return
+        if rec.get('outcome') not in ('ok', 'fault'):
             return
         meth, state = info['method'], info['state']
         fault = rec.get('fault') if rec['outcome'] == 'fault' else None
